@@ -198,12 +198,27 @@ pub fn run_sync(case: &Case, p: &Parsed, trace: bool) -> Result<RealRun, Violati
         type_name: op.object_type().to_string(),
     };
     let vars = vars_map(case);
+    // the builder's alternative entry points, chosen by the case (a pure function of it):
+    // pre-coerced variables, and a pre-computed implementers map
+    let variant = case.world_seed & 3;
+    let imap = p.schema.implementers_map();
+    let coerced = if variant & 1 == 1 {
+        coerce_variable_values(&p.schema, op, &vars).ok()
+    } else {
+        None
+    };
     let result = std::panic::catch_unwind(AssertUnwindSafe(|| {
-        Execution::new(&p.schema, &p.doc)
+        let mut exec = Execution::new(&p.schema, &p.doc)
             .operation(op)
-            .raw_variable_values(&vars)
-            .enable_schema_introspection(case.introspection)
-            .execute_sync(&root)
+            .enable_schema_introspection(case.introspection);
+        exec = match &coerced {
+            Some(c) => exec.coerced_variable_values(c),
+            None => exec.raw_variable_values(&vars),
+        };
+        if variant & 2 == 2 {
+            exec = exec.implementers_map(&imap);
+        }
+        exec.execute_sync(&root)
     }));
     drop(root);
     let result = match result {
@@ -249,11 +264,25 @@ pub fn run_async(case: &Case, p: &Parsed, trace: bool) -> Result<RealRun, Violat
     };
     let vars = vars_map(case);
     let poll_cap = 200_000u64;
+    // the async run takes the *other* entry points than the sync run of the same case
+    let variant = !case.world_seed & 3;
+    let imap = p.schema.implementers_map();
+    let coerced = if variant & 1 == 1 {
+        coerce_variable_values(&p.schema, op, &vars).ok()
+    } else {
+        None
+    };
     let result = std::panic::catch_unwind(AssertUnwindSafe(|| {
-        let exec = Execution::new(&p.schema, &p.doc)
+        let mut exec = Execution::new(&p.schema, &p.doc)
             .operation(op)
-            .raw_variable_values(&vars)
             .enable_schema_introspection(case.introspection);
+        exec = match &coerced {
+            Some(c) => exec.coerced_variable_values(c),
+            None => exec.raw_variable_values(&vars),
+        };
+        if variant & 2 == 2 {
+            exec = exec.implementers_map(&imap);
+        }
         let fut = exec.execute_async(&root);
         let mut fut = std::pin::pin!(fut);
         sim::run_to_completion(&shared, fut.as_mut(), poll_cap)
